@@ -50,10 +50,27 @@ pub fn run_fn(isa: &str, f: u32, buf: &mut [f32]) -> bool {
     dispatch_on(isa, VmOp { f, buf }).is_some()
 }
 
-/// The reference each function's documentation / tests name: f32 std functions, the reference
-/// sigmoid `1 / (1 + exp(-x))` in f32 arithmetic, libm::erff.
+/// PRIMARY reference: the mathematical function evaluated in f64 and rounded once to f32 (the
+/// platform's f64 libm is accurate to well below an f32 ulp, so this does not depend on the quality
+/// of the platform's f32 routines).  Sigmoid is documented against the f32 formula
+/// `1 / (1 + exp(-x))`; that formula is kept (including its flush to 0 when exp overflows) with a
+/// correctly rounded exp.
 #[inline(always)]
 pub fn reference(f: u32, x: f32) -> f32 {
+    let xd = x as f64;
+    match f {
+        0 => xd.exp() as f32,
+        1 => 1f32 / (1f32 + ((-xd).exp() as f32)),
+        2 => xd.tanh() as f32,
+        3 => libm::erf(xd) as f32,
+        4 => xd.sin() as f32,
+        _ => xd.cos() as f32,
+    }
+}
+/// SECONDARY reference: the f32 routines the crate's documentation names literally (Rust std
+/// `f32::exp/tanh/sin/cos` = the platform's libm, `libm::erff`).
+#[inline(always)]
+pub fn reference_std32(f: u32, x: f32) -> f32 {
     match f {
         0 => x.exp(),
         1 => 1. / (1. + (-x).exp()),
@@ -62,19 +79,6 @@ pub fn reference(f: u32, x: f32) -> f32 {
         4 => x.sin(),
         _ => x.cos(),
     }
-}
-/// The same functions evaluated in f64 and rounded once to f32 (reported for information).
-#[inline(always)]
-pub fn reference64(f: u32, x: f32) -> f32 {
-    let x = x as f64;
-    (match f {
-        0 => x.exp(),
-        1 => 1. / (1. + (-x).exp()),
-        2 => x.tanh(),
-        3 => libm::erf(x),
-        4 => x.sin(),
-        _ => x.cos(),
-    }) as f32
 }
 
 /// ulp of the binade of `e` (as f64); the spacing of subnormals at zero.
